@@ -477,7 +477,7 @@ func (c *cctx) afterMutantParse(key jwk.Key, baseJSON, how string) {
 		return
 	}
 	ctr["keys.mutant_parsed_to_different_key"]++
-	if key.KeyType() == "oct" && c.rng.Chance(3, 4) {
+	if key.KeyType() == "oct" && c.rng.Chance(19, 20) {
 		// mutants of anything mostly end as "a symmetric key of some length"; those are
 		// covered length by length in sym-lengths
 		c.kSerialize(key)
